@@ -21,6 +21,7 @@ import (
 const modPath = "github.com/makiuchi-d/gozxing"
 
 type Ctx struct {
+	iifeVals map[types.Object]*Val // package variables initialised by an immediately invoked function literal, folded
 	Tier     string
 	Seed     int
 	Canon    int // comparisons reoriented by canonicaliseComparisons
